@@ -29,6 +29,10 @@ STRING_CLASSES = [
     ("qualified-name", "t.id"), ("excluded-ref", "excluded.a"), ("hex-blob", "x'00'"), ("nan", "NaN"), ("qmark-alone", "?"),
     ("percent-s-alone", "%s"), ("dollar-one-alone", "$1"), ("colon-name-alone", ":name"), ("kw-current-user", "CURRENT_USER"),
     ("kw-localtimestamp", "LocalTimestamp"), ("kw-current-time", "CURRENT_TIME"),
+    # lengths around engine limits for text literals (Oracle 4000, MySQL max_allowed_packet aside) with quotes at the boundaries
+    ("long-4001", "a" * 4001), ("long-quote-at-4000", "a" * 3999 + "'" + "b" * 10), ("long-quotes-8200", ("x" * 39 + "'") * 205),
+    ("long-backslash-at-4000", "a" * 3999 + "\\" + "'c"), ("long-255", "v" * 255), ("long-256-unicode", "\u00e9" * 256), ("long-65536", "z" * 65536),
+    ("runs-of-spaces", "a  b   c    d"), ("leading-trailing-spaces", "  padded  "), ("tabs-and-spaces", "a \t  b"),
 ]
 LOOKALIKES = [v for n, v in STRING_CLASSES if n.startswith(("kw-", "call-", "star", "number", "negative-", "sum", "exponent", "qualified-", "excluded-",
                                                             "hex-", "nan", "qmark-alone", "percent-s-alone", "dollar-one-alone", "colon-name-alone"))]
